@@ -123,6 +123,53 @@ def u_finish(c):
     c.oblige("write-finished", conn._write_finished is True)
 
 
+@unit("C02", "HEAD-mirrors-GET", [("tornado.web", "RequestHandler.flush"), ("tornado.web", "RequestHandler.finish")])
+def u_head_mirrors_get(c):
+    """'a Content-Length always equals the length of the body a GET would carry' - also when an output transform (gzip) rewrites body and headers:
+    finite case analysis through the real Application: body size x compressible type x Accept-Encoding x flush before finish x compress_response"""
+    import tornado.web as W
+    from pyvc.standin import httpserver as S, spec_http
+    size = c.choose("body-bytes", [0, 100, 1023, 1024, 6000])
+    ctype = c.choose("content-type", ["text/html", "image/png"])
+    accept = c.choose("accept-encoding", ["gzip", None])
+    flush_first = c.choose("flush-before-finish", [False, True])
+    compress = c.choose("compress_response", [True, False])
+    body = (b"compressible text " * (size // 18 + 1))[:size]
+
+    def run(method):
+        class H(W.RequestHandler):
+            async def get(self):
+                self.set_header("Content-Type", ctype)
+                self.write(body)
+                if flush_first:
+                    await self.flush()
+                self.finish()
+            head = get
+        lines = ["%s / HTTP/1.1" % method, "Host: h"] + (["Accept-Encoding: " + accept] if accept else [])
+        r = S.run_server([("\r\n".join(lines) + "\r\n\r\n").encode()], make_app=lambda res: W.Application([(r"/", H)], compress_response=compress), eof=False)
+        resps = spec_http.read_responses(r.sent, [method], r.closed)
+        if len(resps) != 1:
+            raise spec_http.Reject("%d responses to one %s request" % (len(resps), method))
+        hd = {}
+        for n, v in resps[0]["headers"]:
+            hd.setdefault(n.lower(), []).append(v)
+        return resps[0], hd, r
+    try:
+        g, gh, gr = run("GET")
+        h, hh, hr = run("HEAD")
+    except spec_http.Reject as e:
+        c.oblige("post/both-responses-are-well-framed", False)
+        c.values = {"reject": str(e)}
+        return
+    c.cover("head/%d/%s" % (size, compress))
+    c.values = {"GET": {k: gh.get(k) for k in ("content-length", "content-encoding", "transfer-encoding", "vary")}, "HEAD": {k: hh.get(k) for k in ("content-length", "content-encoding", "transfer-encoding", "vary")}, "GET body bytes": len(g["body"])}
+    c.oblige("post/the-HEAD-response-carries-no-body", h["body"] == b"")
+    if "content-length" in hh:
+        c.oblige("post/a-Content-Length-on-the-HEAD-response-is-the-length-of-the-body-the-GET-carries", hh["content-length"] == [str(len(g["body"]))])
+    c.oblige("post/HEAD-announces-the-same-coding-and-framing-as-GET", hh.get("content-encoding") == gh.get("content-encoding") and hh.get("content-length") == gh.get("content-length") and hh.get("vary") == gh.get("vary"))
+    c.oblige("post/same-status", h["status"] == g["status"])
+
+
 def standin(tier, seed):
     import itertools
     import random
@@ -186,7 +233,8 @@ def standin(tier, seed):
             progs.append(p)
     rng.shuffle(progs)
     budget = 60 if tier == "quick" else 1200
-    variants = [("GET", "HTTP/1.1", None), ("HEAD", "HTTP/1.1", None), ("POST", "HTTP/1.1", None), ("GET", "HTTP/1.0", None), ("GET", "HTTP/1.0", "keep-alive"), ("GET", "HTTP/1.1", "etag")]
+    variants = [("GET", "HTTP/1.1", None), ("HEAD", "HTTP/1.1", None), ("POST", "HTTP/1.1", None), ("GET", "HTTP/1.0", None), ("GET", "HTTP/1.0", "keep-alive"), ("GET", "HTTP/1.1", "etag"),
+                ("GET", "HTTP/1.0", "keep-alive-in-a-list"), ("GET", "HTTP/1.0", "keep-alive-on-two-lines"), ("GET", "HTTP/1.1", "close-in-a-list")]
     for prog in progs:
         if time.time() - t0 > budget:
             break
@@ -195,6 +243,12 @@ def standin(tier, seed):
             lines = ["%s /p %s" % (method, version), "Host: x"]
             if extra == "keep-alive":
                 lines.append("Connection: keep-alive")
+            elif extra == "keep-alive-in-a-list":
+                lines.append("Connection: Keep-Alive, TE")
+            elif extra == "keep-alive-on-two-lines":
+                lines += ["Connection: TE", "Connection: keep-alive"]
+            elif extra == "close-in-a-list":
+                lines.append("Connection: TE, close")
             if extra == "etag":
                 record["etag"] = '"tag1"'
                 lines.append('If-None-Match: "tag1"')
